@@ -111,6 +111,19 @@ P("C13",
                "total demand <= total capacity when solve() is called (after increaseCapacity() where needed)"])
 
 
+P("C14",
+  rc={"quick": (8, 40000, 100, 4), "thorough": (12, 500000, 100, 4)},
+  exh={"quick": 8, "thorough": 8},
+  fuzz={"quick": None, "thorough": (4, 400000, 1024)},
+  rule="tapes decoded into (source positions, sink positions, supplies, demands): 1..30 sources (60 thorough), "
+       "1..16 sinks (30), unsorted positions with duplicates in [0,20] / [0,5000] / [0,1e8], supplies 0..5 or "
+       "to 1e6, zero supplies and demands over-weighted, total supply <= total demand directly (exact or with "
+       "slack) or through balanceDemand(); optimum from LEMON NetworkSimplex. non-trivial = the plan splits a "
+       "source or a zero supply/demand is present; distinct = hash of the instance. Exhaustive part: 1..3 sources "
+       "x 1..3 sinks, positions 0..3, supplies and demands 0..2, against brute force over all plans.",
+  assumptions=["at least one sink; the clause 'a sink of positive demand' is only required when some sink has positive demand"])
+
+
 # ----------------------------------------------------------------------------
 def sh(cmd, **kw):
     return subprocess.run(cmd, stdout=subprocess.PIPE, stderr=subprocess.STDOUT, text=True, **kw)
